@@ -49,6 +49,83 @@ loop(f"{TC}:TestCase.remove_unused_variables", 0, invariant=[
 ])
 
 
+# ---------------------------------------------------------------------------------------------------------------
+# export (TestSuiteWriter._build_test_function): the emitted body is [node_0, asserts of stmt 0..., node_1, ...].
+# The deductive formulation ("for every statement j and assertion k with a rendering there is a position p in the
+# body ...", a forall-forall-exists over two nested loops) was tried and stays undecided in z3 and cvc5 (timeouts on
+# the invariant-preservation steps), so this function is covered by a bounded stand-in only, labelled as such.
+import itertools  # noqa: E402
+
+from pyvc.bounded import Part, guarded  # noqa: E402
+
+
+def _export_cases(tier):
+    import libcst as cst
+    import pynguin.assertion.assertion as ass
+    from pynguin.testcase.testcase import Statement, TestCase
+    kinds = ["obj", "obj-dup", "float", "len", "exc", "none"]
+    nst = 3 if tier == "thorough" else 2
+    for n in range(1, nst + 1):
+        for combo in itertools.product(itertools.product(kinds, repeat=2), repeat=n):
+            for excs in itertools.product([None, ValueError], repeat=n):
+                tc = TestCase()
+                expected = []
+                for i, (k1, k2) in enumerate(combo):
+                    var = f"var_{i}"
+                    asserts = []
+                    for k in (k1, k2):
+                        if k == "obj":
+                            asserts.append(ass.ObjectAssertion(var, i))
+                        elif k == "obj-dup":
+                            asserts.append(ass.ObjectAssertion("var_0", 0))     # equal to an assertion emitted earlier
+                        elif k == "float":
+                            asserts.append(ass.FloatAssertion(var, 1.5))
+                        elif k == "len":
+                            asserts.append(ass.CollectionLengthAssertion(var, 0))
+                        elif k == "exc":
+                            asserts.append(ass.ExceptionAssertion("builtins", "ValueError"))
+                    tc.add_statement(Statement(node=cst.parse_statement(f"{var} = {i}"), bound_variable=var,
+                                               bound_type=int, assertions=asserts))
+                    expected.append((var, [a for a in asserts if not isinstance(a, ass.ExceptionAssertion)]))
+                yield tc, list(excs), expected
+
+
+def _check_export(part: Part, tier, seed):
+    import libcst as cst
+    from pynguin.assertion.assertion_to_ast import assertion_to_cst
+    from pynguin.testcase.export import TestSuiteWriter
+    writer = TestSuiteWriter()
+    for tc, excs, expected in _export_cases(tier):
+        part.case(any(a for _, a in expected))
+        func, _ = writer._build_test_function(0, tc, excs)   # noqa: SLF001
+        lines = [ln.strip() for ln in cst.Module(body=[func]).code.splitlines()]
+        body = [ln for ln in lines if ln and not ln.startswith(("def ", "@", "with "))]
+        want = []
+        for var, asserts in expected:
+            want.append(next(ln for ln in body if ln.startswith(f"{var} =")))
+            want += [cst.Module(body=[assertion_to_cst(a)]).code.strip() for a in asserts]
+        if body != want:
+            part.violation("every assertion attached to a statement is emitted right after that statement, in order",
+                           "export-drops-or-reorders-assertion",
+                           {"test_case": tc.to_code(), "assertions": repr([(v, [repr(a) for a in al]) for v, al in expected]),
+                            "exception_types": repr(excs), "expected_body": want, "emitted_body": body},
+                           target=f"{EX}:TestSuiteWriter._build_test_function")
+
+
+def bounded_export(tier, seed):
+    p = Part("C19", "export-keeps-assertions", [f"{EX}:TestSuiteWriter._build_test_function"],
+             scope="all test cases of 1..%d statements `var_i = i`, each with every pair of assertion kinds from "
+                   "{object, object equal to an earlier one, float, length, exception, none}, x expected-exception "
+                   "pattern {None, ValueError} per statement" % (3 if tier == "thorough" else 2),
+             bound="statements <= %d, assertions per statement <= 2" % (3 if tier == "thorough" else 2))
+    return guarded(p, _check_export, tier, seed)
+
+
+BOUNDED = [bounded_export]
+META = {"rule": "obligations: one per contract clause/site of TestCase.remove_unused_variables; bounded part: one case "
+                "per enumerated (test case, exception pattern); non-trivial = at least one renderable assertion"}
+
+
 def witness_dropped():
     """var_0 = 1 with an ObjectAssertion on var_0, variable unused later."""
     import libcst as cst
